@@ -19,6 +19,7 @@ func init() {
 			// a violation in a later frame must surface from the helpers as well
 			helperReadDataRules(c, "C05")
 			helperReadMessageRules(c, "C05")
+			helperNextReaderRules(c, "C05")
 		},
 	})
 }
